@@ -277,6 +277,8 @@ def run(ck, m):
 
 
 MUTANTS = [
+    M("sleep-in-else", RN, "Renderable._animate_", "            # left-over of last frame's duration\n            sleep(max(0, duration_ms * 10**6 - (perf_counter_ns() - start_ns)) / 10**9)\n        except KeyboardInterrupt:\n            pass\n",
+      "        except KeyboardInterrupt:\n            pass\n        else:\n            sleep(max(0, duration_ms * 10**6 - (perf_counter_ns() - start_ns)) / 10**9)\n", {"R5"}),
     M("revert-fix-hide-before-try", CM, "BaseImage.draw",
       "            try:\n                # Hide the cursor immediately if the output is a terminal device\n                sys.stdout.isatty() and print(HIDE_CURSOR, end=\"\", flush=True)\n",
       "            sys.stdout.isatty() and print(HIDE_CURSOR, end=\"\", flush=True)\n            try:\n", {"R1"}),
